@@ -390,7 +390,7 @@ impl Scenario for RuleSteps {
         "mh_rule_steps"
     }
     fn runs(&self, tier: Tier) -> u64 {
-        tier.pick(800_000, 8_000_000)
+        tier.pick(800_000, 40_000_000)
     }
     fn generate(&self, g: &mut Gen, _tier: Tier, _idx: u64) -> Value {
         json!({"types": *g.pick(&["f64/f64", "f64/f64", "f32/f32", "i32/f64", "i32/f32", "usize/f64"]), "gseed": g.u64(), "k": g.usize(2, 8), "steps": 64, "dim": g.usize(1, 3),
@@ -571,7 +571,7 @@ impl Scenario for Kernel {
         "mh_exact_kernel"
     }
     fn runs(&self, tier: Tier) -> u64 {
-        tier.pick(12_000, 100_000)
+        tier.pick(12_000, 400_000)
     }
     fn generate(&self, g: &mut Gen, _tier: Tier, _idx: u64) -> Value {
         json!({"float": *g.pick(&["f64", "f64", "f32"]), "gseed": g.u64(), "k": g.usize(2, 7)})
